@@ -193,7 +193,8 @@ PROPS = {
         tv_props=["C18", "DRIFT"],
         conformance=True,
         mc=[dict(module="MC_Conc.tla", cfg="MC_Conc_2x2"), dict(module="MC_Conc.tla", cfg="MC_Conc_3x1"),
-            dict(module="MC_Conc.tla", cfg="MC_Conc_bug_insert", expect="WriteOnce")],
+            dict(module="MC_Conc.tla", cfg="MC_Conc_bug_insert", expect="WriteOnce"),
+            dict(module="MC_Conc.tla", cfg="MC_Conc_bug_tryget", expect="NoMonitorFired")],
         must_fire=["C18.map_answers_are_the_cached_value", "C18.answer_is_sequential", "C18.cached_value_never_replaced", "C18.no_deadlock"],
         rule="every interleaving (at the granularity of the crate's schedule points) of all pairs of one-call threads over a shared "
              "CachedSource, a parent of a clone of it with a yielding child and a ReplaceSource with a stale sort index, enumerated "
